@@ -37,7 +37,7 @@ const memSize = 65536
 func classValue(r role, class string, idx int) uint64 {
 	switch r.R {
 	case "fd":
-		return map[string]uint64{"file": 4, "stdin": 0, "stdout": 1, "preopen": 3, "dir": 5, "closed": 6, "neg1": 0xffffffff, "big": 0x7fffffff}[class]
+		return map[string]uint64{"file": 4, "stdin": 0, "stdout": 1, "preopen": 3, "dir": 5, "closed": 6, "neg1": 0xffffffff, "big": 0x7fffffff, "washigh": 100, "word2": 70}[class]
 	case "in", "out", "res", "iovr", "iovw", "evs", "subs":
 		return map[string]uint64{"valid": uint64(8192 + 2048*idx), "zero": 0, "end-4": memSize - 4, "end-1": memSize - 1, "end": memSize, "2^31": 1 << 31, "max": 0xffffffff}[class]
 	case "len":
@@ -126,6 +126,10 @@ func runTuple(res *common.Result, ee *engineEnv, engine string, it *item, tuple 
 	call("path_open", 3, 0, 1010, 1, 2, 0, 0, 0, 900)
 	call("path_open", 3, 0, 1000, 1, 0, 1<<1, 0, 0, 900)
 	call("fd_close", 6)
+	// ... and a history: a descriptor was moved far up (fd_renumber to 100) and closed there, so the table once was larger
+	call("path_open", 3, 0, 1000, 1, 0, 1<<1, 0, 0, 900)
+	call("fd_renumber", 6, 100)
+	call("fd_close", 100)
 	// memory image
 	img := make([]byte, memSize)
 	for i := range img {
@@ -250,9 +254,17 @@ func runTuple(res *common.Result, ee *engineEnv, engine string, it *item, tuple 
 			break
 		}
 	}
+	errno := uint64(0)
+	if out.err == nil && len(out.r) > 0 {
+		errno = out.r[0] & 0xffffffff
+	}
 	for fd := 0; fd < 10; fd++ {
 		if got[fd] != before[fd] && !named[fd] && !(fd == newFd && (it.F == "path_open" || it.F == "sock_accept")) {
 			res.AddFail(key("TableConsistent"), fmt.Sprintf("%s: descriptor %d changed from type %d to %d although the call does not name it", desc, fd, before[fd], got[fd]))
+		}
+		// a call that FAILED (errno != 0) leaves every descriptor as it was, the ones it names included
+		if got[fd] != before[fd] && named[fd] && errno != 0 && out.err == nil {
+			res.AddFail(key("TableConsistent:failed-call"), fmt.Sprintf("%s: returned errno %d but descriptor %d changed from type %d to %d", desc, errno, fd, before[fd], got[fd]))
 		}
 	}
 }
